@@ -43,6 +43,43 @@ struct CaseDef {
     bps: usize,
     rate: usize,
     bs: usize,
+    /// deliver through a source whose reads are sometimes shorter than the block size
+    packets: bool,
+}
+
+struct PacketSource {
+    ch: usize,
+    bps: usize,
+    rate: usize,
+    samples: Vec<i32>,
+    pos: usize,
+    reads: usize,
+}
+
+impl flacenc::source::Source for PacketSource {
+    fn channels(&self) -> usize {
+        self.ch
+    }
+    fn bits_per_sample(&self) -> usize {
+        self.bps
+    }
+    fn sample_rate(&self) -> usize {
+        self.rate
+    }
+    fn read_samples<F: flacenc::source::Fill>(&mut self, block_size: usize, dest: &mut F) -> Result<usize, flacenc::error::SourceError> {
+        let want = match self.reads % 5 {
+            1 => (block_size / 2).max(1),
+            3 => 1,
+            4 => (block_size - 1).max(1),
+            _ => block_size,
+        };
+        self.reads += 1;
+        let end = (self.pos + want * self.ch).min(self.samples.len());
+        dest.fill_interleaved(&self.samples[self.pos..end])?;
+        let n = (end - self.pos) / self.ch;
+        self.pos = end;
+        Ok(n)
+    }
 }
 
 fn corpus() -> Vec<CaseDef> {
@@ -50,7 +87,8 @@ fn corpus() -> Vec<CaseDef> {
     let mut add = |name: String, f: &dyn Fn(&mut config::Encoder), kind: usize, bps: usize, ch: usize, n: usize, rate: usize, bs: usize| {
         let mut cfg = config::Encoder::default();
         f(&mut cfg);
-        v.push(CaseDef { name, cfg, samples: signal(kind, bps, ch, n), ch, bps, rate, bs });
+        let packets = name.starts_with("packets_");
+        v.push(CaseDef { name, cfg, samples: signal(kind, bps, ch, n), ch, bps, rate, bs, packets });
     };
     // inputs x default configuration, `multithread` defaulted (depends on the `par` feature) and explicit
     for (kind, bps, ch, n, rate, bs) in [
@@ -64,6 +102,10 @@ fn corpus() -> Vec<CaseDef> {
         (5, 16, 2, 9000, 44100, 4096),
         (1, 16, 2, 0, 44100, 64),
         (2, 16, 2, 40 * 32 + 3, 16000, 32),
+        // frame counts around the points where the coded frame number grows by a byte
+        (0, 8, 1, 129 * 32, 8000, 32),
+        (0, 8, 1, 2049 * 32, 8000, 32),
+        (1, 16, 1, 1300 * 32, 8000, 32),
     ] {
         for mt in [None, Some(false), Some(true)] {
             add(
@@ -77,6 +119,19 @@ fn corpus() -> Vec<CaseDef> {
                 kind, bps, ch, n, rate, bs,
             );
         }
+    }
+    // packet-delivering source, `multithread` defaulted and explicit
+    for mt in [None, Some(false), Some(true)] {
+        add(
+            format!("packets_in1_16b_2ch_mt{mt:?}"),
+            &move |c: &mut config::Encoder| {
+                if let Some(m) = mt {
+                    c.multithread = m;
+                }
+                c.workers = std::num::NonZeroUsize::new(2);
+            },
+            1, 16, 2, 900, 44100, 64,
+        );
     }
     // configuration variants (non-experimental options only)
     type F = Box<dyn Fn(&mut config::Encoder)>;
@@ -115,7 +170,12 @@ fn main() {
         }
         let r = std::panic::catch_unwind(|| {
             let cfg = c.cfg.clone().into_verified().map_err(|(_, e)| format!("config rejected: {e:?}"))?;
-            let s = flacenc::encode_with_fixed_block_size(&cfg, MemSource::from_samples(&c.samples, c.ch, c.bps, c.rate), c.bs).map_err(|e| format!("encode error: {e:?}"))?;
+            let s = if c.packets {
+                flacenc::encode_with_fixed_block_size(&cfg, PacketSource { ch: c.ch, bps: c.bps, rate: c.rate, samples: c.samples.clone(), pos: 0, reads: 0 }, c.bs)
+            } else {
+                flacenc::encode_with_fixed_block_size(&cfg, MemSource::from_samples(&c.samples, c.ch, c.bps, c.rate), c.bs)
+            }
+            .map_err(|e| format!("encode error: {e:?}"))?;
             let mut sink = ByteSink::new();
             s.write(&mut sink).map_err(|e| format!("write error: {e:?}"))?;
             Ok::<_, String>((s.frame_count(), sink.into_inner()))
